@@ -154,7 +154,8 @@ func (c *SumCopyCommand) sumCopyItem(item string, tow io.Writer) error {
 		return nil
 	}
 
-	if err := updateFileDataWithPointsList(destDB, srcPlDif, now); err != nil {
+	srcPlWrite := pointsListToWrite(srcTsList, srcPlDif, true)
+	if err := updateFileDataWithPointsList(destDB, srcPlWrite, now); err != nil {
 		return err
 	}
 
